@@ -36,6 +36,11 @@ Record cfg := mkCfg {
   c_maxact : N;      (* MaxActiveTransactions *)
   c_prealloc : bool; (* PreallocFiles *)
   c_psize : N;       (* bytes preallocated (zero-filled) in the tx and commit logs *)
+  c_ahtreset : bool; (* NOT an option of the store: false = the code as it is; true = the code with the
+                        proposed repair fixes/C03-aht-durable-reset.diff (ahtree.ResetSize rewinds the tree's
+                        commit log and fsyncs it BEFORE the payload/digest logs can be truncated) *)
+  c_preallocfix : bool; (* NOT an option: true = proposed repair fixes/C03-prealloc-clog-trim.diff (OpenWith
+                        ignores a partially written last commit-log entry of a preallocated commit log) *)
   c_ahtsync : bool   (* NOT an option of the store: true = the code since fix b260503 (store.sync() fsyncs the
                         hash tree after the tx log and before the commit entries are appended); false = the
                         code before that fix (kept for the historical witness Crash/Refuted.v tree_refuted) *)
@@ -172,12 +177,19 @@ Definition aht_sync (a : aht) : res aht :=
       Ok (mkAht d c2 (a_size a) (a_latest a + a_cnt a) 0)
   end.
 
-Definition aht_reset (a : aht) (n : N) : res aht :=
+Definition aht_reset (dur : bool) (a : aht) (n : N) : res aht :=
   if a_size a <? n then Err EOther            (* ErrCannotResetToLargerSize *)
   else if a_size a =? n then Ok a
   else do a1 <- aht_sync a;
-       (* sizes are lowered IN MEMORY only; the tree's commit log keeps its tail on disk *)
-       Ok (mkAht (a_d a1) (a_c a1) n n 0).
+       if dur then
+         (* proposed repair: the tree's commit log is rewound and fsynced first *)
+         match f_setoffset (a_c a1) (12 * n) with
+         | None => Err EOther
+         | Some c1 => Ok (mkAht (a_d a1) (f_sync c1) n n 0)
+         end
+       else
+         (* sizes are lowered IN MEMORY only; the tree's commit log keeps its tail on disk *)
+         Ok (mkAht (a_d a1) (a_c a1) n n 0).
 
 Definition aht_append (thld : N) (a : aht) (leaf : bytes) : res aht :=
   match f_setoffset (a_d a) (32 * a_size a) with
@@ -225,7 +237,7 @@ Definition step (s : st) (o : op) : res st :=
       | Some (v, vo, vn, hv) =>
           let p := precommitted s in
           if committed s + c_maxact c <=? p then Err EOther      (* ErrMaxActiveTransactionsLimitExceeded *)
-          else match f_setoffset (txl s) (pts s) with
+          else match f_setoffset_gen (c_prealloc c) (txl s) (pts s) with
           | None => Err EOther
           | Some t1 =>
               let id := p + 1 in
@@ -236,7 +248,7 @@ Definition step (s : st) (o : op) : res st :=
                        (v <? 256) && (vo <? 2 ^ 64) && (vn <? 2 ^ 32)) then Err EOther else
               let alh := alh_of id (palh s) body in
               let t2 := f_append t1 raw in
-              do a1 <- aht_reset (aht_of s) p;
+              do a1 <- aht_reset (c_ahtreset c) (aht_of s) p;
               do a2 <- aht_append (c_thld c) a1 alh;
               Ok (mkSt c t2 (cml s) (vls s) (a_d a2) (a_c a2) (committed s) (calh s)
                        (pbuf s ++ [(id, alh, pts s, len raw)]) alh (pts s + len raw) (acked s) PIdle
@@ -278,7 +290,7 @@ Definition step (s : st) (o : op) : res st :=
           if negb (Nat.eqb (length done) (length (vls s))) then Err EOther else   (* every value log *)
           let t1 := f_sync (txl s) in
           do a <- (if c_ahtsync c then aht_sync (aht_of s) else Ok (aht_of s));
-          match f_setoffset (cml s) (44 * committed s) with
+          match f_setoffset_gen (c_prealloc c) (cml s) (44 * committed s) with
           | None => Err EOther
           | Some c1 =>
               Ok (mkSt c t1 (f_append c1 (pbuf_entries (pbuf s))) (vls s) (a_d a) (a_c a) (committed s) (calh s)
@@ -390,15 +402,15 @@ Fixpoint relink (n : nat) (thld : N) (tx cm : bytes) (c : N) (pb : list (N * byt
       relink m thld tx cm c pb a1
   end.
 
+(* SetOffset at open (partial last entry): a truncation since fix 09014a8 *)
 Definition open_trim (img : bytes) (unit_ : N) : file :=
   let r := len img mod unit_ in
-  if 0 <? r then mkFile img [] (len img - r) [] else f_open img.
+  if 0 <? r then mkFile img [PT (len img - r)] (len img - r) [] else f_open img.
 
 (* the part of recovery that reads the tx log and the commit log:
    (committedTxID, committedAlh, reloaded cLogBuf, precommittedAlh, precommittedTxLogSize) *)
-Definition recover_logs (c : cfg) (tx cm : bytes) (vl : list bytes)
+Definition recover_logs_at (csz : N) (tx cm : bytes) (vl : list bytes)
   : res (N * bytes * list (N * bytes * N * N) * bytes * N) :=
-  let csz := if c_prealloc c then prealloc_csz cm else len cm - len cm mod 44 in
   do cst <- (if 0 <? csz then
       match entry_at cm (csz / 44) with
       | None => Err ECorruptedData
@@ -419,6 +431,33 @@ Definition recover_logs (c : cfg) (tx cm : bytes) (vl : list bytes)
       end
   end.
 
+(* slot = the first j < 44 bytes of `full`, zero filled: a partially written commit-log entry *)
+Fixpoint zero_padded_prefix_upto (j : nat) (slot full : bytes) : bool :=
+  match j with
+  | O => false
+  | S i => list_eqb_N slot (take (N.of_nat i) full ++ zeros (44 - N.of_nat i)) || zero_padded_prefix_upto i slot full
+  end.
+Definition zero_padded_prefix (slot full : bytes) : bool := zero_padded_prefix_upto 44 slot full.
+
+Definition recover_logs (c : cfg) (tx cm : bytes) (vl : list bytes)
+  : res (N * bytes * list (N * bytes * N * N) * bytes * N) :=
+  let csz := if c_prealloc c then prealloc_csz cm else len cm - len cm mod 44 in
+  match recover_logs_at csz tx cm vl with
+  | Ok r => Ok r
+  | e =>
+      (* proposed repair for PreallocFiles: the last non-zero slot does not validate; if it is a zero
+         padded prefix of the entry of the transaction found in the tx log right after the previous
+         commit, it is a partial write of a not yet committed transaction: ignore it *)
+      if c_prealloc c && c_preallocfix c && (0 <? csz) then
+        match recover_logs_at (csz - 44) tx cm vl with
+        | Ok (cid, ca, (id, a, off, n) :: pb, pa, ptls) =>
+            if zero_padded_prefix (slice cm (csz - 44) 44) (enc_entry off n a)
+            then Ok (cid, ca, (id, a, off, n) :: pb, pa, ptls) else e
+        | _ => e
+        end
+      else e
+  end.
+
 (* recovery, relinking at most `upto` leaves *)
 Definition recover_upto (upto : nat) (c : cfg) (im : images) : res st :=
   let tx := i_txl im in
@@ -435,7 +474,7 @@ Definition recover_upto (upto : nat) (c : cfg) (im : images) : res st :=
       let a0 := mkAht (f_open (i_ahd im)) (open_trim ac 12) asz asz 0 in
       (* fix 2077e08: leaves beyond the COMMITTED transactions are not trusted; they are re-appended
          from the reloaded precommitted transactions *)
-      do a1 <- (if cid <? asz then aht_reset a0 cid else Ok a0);
+      do a1 <- (if cid <? asz then aht_reset (c_ahtreset c) a0 cid else Ok a0);
       do a2 <- relink (Nat.min upto (N.to_nat (p - a_size a1))) (c_thld c) tx cm cid pb a1;
       Ok (mkSt c (f_open tx) cmf (map f_open (i_vls im)) (a_d a2) (a_c a2)
                cid ca pb pa ptls cid PIdle [] (a_size a2) (a_latest a2) (a_cnt a2))
